@@ -3,12 +3,18 @@
 package storesim
 
 import (
+	"os"
+	"runtime"
 	"testing"
 
 	"verif/sim/core"
 )
 
 func TestWorker(t *testing.T) {
+	// one sequential simulation per process; the runner shards over processes
+	if os.Getenv("GOMAXPROCS") == "" {
+		runtime.GOMAXPROCS(2)
+	}
 	core.Main(t, core.Engine{Name: "storesim", Campaigns: map[string]core.RunFunc{
 		"C27/beacon-clean":  runBeaconClean,
 		"C27/beacon-faulty": runBeaconFaulty,
